@@ -538,7 +538,9 @@ impl<T: BitWrite> PackedWrite for T {
         if value < lower_bound {
             Err(ErrorKind::ValueNotInRange(value, lower_bound, i64::MAX).into())
         } else {
-            self.write_non_negative_binary_integer(None, None, (value - lower_bound) as u64)
+            // the difference of two i64 does not always fit into an i64
+            let offset = (value as i128 - lower_bound as i128) as u64;
+            self.write_non_negative_binary_integer(None, None, offset)
         }
     }
 
